@@ -400,7 +400,10 @@ def bounds(tier):
             "precedence_configs": 16}
 
 
-def reachable():
+QUICK_SKIP = ("set_kw_context", "attr_assign_context", "read_context")
+
+
+def reachable(tier="thorough"):
     def mstep(st, a):
         m = M(StateModel(dict(st[0])), st[1])
         step(m, a)
@@ -411,13 +414,16 @@ def reachable():
 
     init = (tuple(sorted(StateModel(INITIAL).s.items(), key=lambda kv: kv[0])), None)
     # snapshots multiply the space without adding behaviour: BFS over state-machine states with/without a snapshot
-    return EX.bfs_states(init, OPNAMES, mstep, canon)
+    # quick: the states that only differ in the 'context' attribute are reached in the sequence part (E1) and in the thorough
+    # tier; every operation (including those three) is still applied from every state reached here
+    names = OPNAMES if tier == "thorough" else [o for o in OPNAMES if o not in QUICK_SKIP]
+    return EX.bfs_states(init, names, mstep, canon)
 
 
 def plan(tier, seed):
     shards = [("prec",)]
     n2 = 16
-    shards += [("e2", k, n2) for k in range(n2)]
+    shards += [("e2", tier, k, n2) for k in range(n2)]
     depth = 3 if tier == "thorough" else 2
     n1 = 64 if tier == "thorough" else 16
     shards += [("e1", depth, k, n1) for k in range(n1)]
@@ -436,8 +442,8 @@ def run_shard(shard):
                     res.fail(f"precedence|s{has_state}v{has_service}p{has_var}|{scope}", case, expected=fail["expected"], observed=fail["observed"])
         return res
     if shard[0] == "e2":
-        _, k, n = shard
-        reach = reachable()
+        _, tier, k, n = shard
+        reach = reachable(tier)
         i = -1
         for key, path in sorted(reach.items(), key=lambda kv: (len(kv[1]), kv[1])):
             for op in OPNAMES:
